@@ -19,7 +19,7 @@ const (
 	StDischarged = "discharged"
 	StViolated   = "violated"
 	StNote       = "note"      // recorded, never counted as a violation
-	StUndecided  = "undecided" // the checker could not decide: exit 2
+	StUndecided  = "undecided" // neither discharged nor refuted: reported as an undischarged obligation (exit 1)
 )
 
 // Obligation is one (rule, construct) pair the checker had to decide.
